@@ -302,20 +302,25 @@ Section Concrete.
   Definition delete_all (s : state) (ks : list K) : res state :=
     fold_res (fun st k => delete st k >>= fun r => Ok (fst r)) s ks.
 
-  (* Set.Intersection(other) *)
+  (* Set.Intersection(other): collect the elements of other that are in s, then
+     list them in the order of s *)
   Definition set_inter (s : state) (ks : list K) : res state :=
-    fold_res (fun z x => match lookup s x with
-                         | Some _ => insert insert_fuel z x vnone
-                         | None => Ok z
-                         end) zero_state ks.
+    fold_res (fun c x => match lookup s x with
+                         | Some _ => insert insert_fuel c x vnone
+                         | None => Ok c
+                         end) zero_state ks >>= fun common =>
+    items s >>= fun l =>
+    fold_res (fun z kv => match lookup common (fst kv) with
+                          | Some _ => insert insert_fuel z (fst kv) vnone
+                          | None => Ok z
+                          end) zero_state l.
 
-  (* Set.SymmetricDifference(other) *)
+  (* Set.SymmetricDifference(other): membership is decided against s *)
   Definition set_symdiff (s : state) (ks : list K) : res state :=
     clone_set s >>= fun d =>
-    fold_res (fun d x => delete d x >>= fun r =>
-                         match snd r with
-                         | Some _ => Ok (fst r)
-                         | None => insert insert_fuel (fst r) x vnone
+    fold_res (fun d x => match lookup s x with
+                         | Some _ => delete d x >>= fun r => Ok (fst r)
+                         | None => insert insert_fuel d x vnone
                          end) d ks.
 
   (* Dict.Union: z.ht.init(x.Len()); z.ht.addAll(&x.ht); z.ht.addAll(&y.ht) *)
